@@ -121,7 +121,7 @@ func init() {
 				return 40_000
 			}, Run: c10Random,
 				Rule: "PRNG histories of 20..200 calls (one in 64: 3000..6000 calls), biased to stay legal for long stretches, with resets and errors in the middle and with runs of 15..65 calls of one drawing verb (new operands each) followed by a decode check",
-				Min:  map[string]int64{"state_error": 1000, "accepted_histories_decoded": 1000, "runs_of_one_verb": 5000, "runs_of_arcs": 300, "runs_of_255_or_more": 1000}},
+				Min:  map[string]int64{"state_error": 1000, "accepted_histories_decoded": 1000, "runs_of_one_verb": 5000, "runs_of_arcs": 300, "runs_of_255_or_more": 1000, "histories_beyond_64KiB": 20}},
 		},
 	})
 }
@@ -383,6 +383,12 @@ func c10Random(c *run.Ctx, idx uint64) {
 	if long {
 		n = r.Range(3000, 6000) // streams of tens of kilobytes
 	}
+	huge := r.Chance(1, 700)
+	if huge {
+		// streams beyond 64 KiB (the width of a 16-bit length or offset); judged every 64th call and at the end
+		long, n = true, r.Range(25000, 40000)
+		c.Count("histories_beyond_64KiB", 1)
+	}
 	o := gen.Opts{Coord: gen.Any, RegNum: gen.Any, Angle: gen.Any}
 	h := &h10{c: c}
 	h.start()
@@ -436,7 +442,7 @@ func c10Random(c *run.Ctx, idx uint64) {
 		if runPending && l == l10End {
 			decodeCheck, runPending = true, false // a run is always followed by a decode check at the end of its path
 		}
-		if !h.call(l, r, &o, true, decodeCheck) {
+		if !h.call(l, r, &o, !huge || i%64 == 0 || i == n-1 || decodeCheck, decodeCheck) {
 			break
 		}
 	}
